@@ -438,6 +438,13 @@ func actOracle(c *actCase, o *actObs) []hx.Violation {
 							return
 						}
 						sig := "C02:obj-manifest-field-not-applied"
+						// K9-C02: custom kind that EXISTS, is owned by the release and is in no manifest of the deployed
+						// revision (kept by its keep policy when an earlier revision dropped it, then re-added): upgrade /
+						// install adopt it by appending the TARGET entry itself to the "original" list, and the two-way JSON
+						// patch of (target, target) is empty: nothing of the new manifest is applied
+						if objUnstructured(r.Kind) && !s.Force && had && !hadOrig && !(s.Op == "install" && s.TakeOwnership) {
+							sig = "C02:unstructured-adopted-resource-not-patched"
+						}
 						// K8-C02: custom kind, upgrade / rollback (Client.Update, no --force): a field the previously deployed
 						// manifest gives the same value is not in the two-way patch; out-of-band drift of it stays
 						if objUnstructured(r.Kind) && !s.Force && s.Op != "install" && had && hadOrig {
@@ -624,6 +631,7 @@ func actClass(c *actCase, o *actObs) string {
 	f := map[string]bool{}
 	verChange := false
 	seen := map[string]string{}
+	prevKeys := map[string]bool{}
 	for i, s := range c.Steps {
 		if s.Op == "edit" {
 			f["edit"] = true
@@ -642,6 +650,16 @@ func actClass(c *actCase, o *actObs) string {
 				verChange = true
 			}
 			seen[r.Key()] = r.version()
+			// an existing object that the previous operation's manifest did not name: adopted
+			if i > 0 && i-1 < len(o.Steps) && !prevKeys[r.Key()] {
+				if _, exists := o.Steps[i-1].Objs[r.Key()]; exists {
+					f["adopts-existing"] = true
+				}
+			}
+		}
+		prevKeys = map[string]bool{}
+		for _, r := range s.Manifest {
+			prevKeys[r.Key()] = true
 		}
 	}
 	if verChange {
@@ -684,5 +702,14 @@ func actCorpus() []any {
 		actStep{Op: "edit", Set: &ed},
 		actStep{Op: "edit", Set: &w1e},
 		actStep{Op: "upgrade", Manifest: []objRes{dep("", "nginx:1.25"), oWidget("w1", jm{"size": float64(2), "color": "web"})}}))
+	// K9-C02: a Widget with the keep policy is dropped by revision 2 (kept), revision 3 names it again with other
+	// content: the upgrade succeeds and applies nothing of it (a Deployment in the same situation is corrected)
+	keepAnn := jm{"annotations": jm{"helm.sh/resource-policy": "keep"}}
+	wk := oWidget("w1", jm{"size": float64(1), "color": "web"}, keepAnn)
+	dk := oDeploy("web", ctr("nginx:1.25"), "meta.annotations", jm{"helm.sh/resource-policy": "keep"})
+	out = append(out, one(nil,
+		actStep{Op: "install", Manifest: []objRes{wk, dk, cfg}},
+		actStep{Op: "upgrade", Manifest: []objRes{cfg}},
+		actStep{Op: "upgrade", Manifest: []objRes{oWidget("w1", jm{"size": float64(2), "color": "db"}), oDeploy("web", ctr("nginx:1.26")), cfg}}))
 	return out
 }
